@@ -211,6 +211,17 @@ func catalog(p ScenParams) *WSpec {
 		ps := ProcSpec{Name: "ps", Kind: "psrc", Items: vals}
 		w.Procs = []ProcSpec{ps, gen, simpleProc("fin", kind), simpleProc("extra", kind)}
 		w.Edges = []Edge{{From: "ps", FromPort: "out", To: "gen", ToPort: "a", Param: true}, fe("gen", "out", "fin", "in"), fe("fin", "out", "extra", "in")}
+	case "g8j": // ONE parameter source feeds two processes that have NO file in-ports (gen, gen2): RunTo(gen) must cut gen2
+		mk := func(name string) ProcSpec {
+			return ProcSpec{Name: name, Kind: kind, Params: []string{"a"}, Outs: []OutSpec{{Name: "out", Pattern: "{p:a}." + name}}}
+		}
+		vals := []string{}
+		for i := 0; i < p.Items; i++ {
+			vals = append(vals, fmt.Sprintf("v%d", i))
+		}
+		ps := ProcSpec{Name: "ps", Kind: "psrc", Items: vals}
+		w.Procs = []ProcSpec{ps, mk("gen"), mk("gen2")}
+		w.Edges = []Edge{{From: "ps", FromPort: "out", To: "gen", ToPort: "a", Param: true}, {From: "ps", FromPort: "out", To: "gen2", ToPort: "a", Param: true}}
 	case "g8b": // parameter port fed by a ParamSource process
 		pp := ProcSpec{Name: "p", Kind: kind, Ins: []string{"in"}, Params: []string{"a"}, Outs: []OutSpec{{Name: "out", Pattern: "{i:in}.{p:a}.p"}}}
 		vals := []string{}
@@ -412,6 +423,16 @@ func catalog(p ScenParams) *WSpec {
 		if ps := w.proc("p"); ps != nil {
 			ps.Barrier = "b"
 			ps.BarrierOnly = []string{"in0.txt", fmt.Sprintf("in%d.txt", p.Items-1)}
+		}
+	case "barrier-skip": // p's task for in1 (holding a slot) rendezvous with q's task for the output of p's SKIPPED task for in0
+		if ps := w.proc("p"); ps != nil {
+			ps.Barrier = "b"
+			ps.BarrierOnly = []string{"in=in1.txt"}
+		}
+		if qs := w.proc("q"); qs != nil {
+			qs.Barrier = "b"
+			qs.BarrierOnly = []string{"in=in0.txt.p"}
+			qs.ZeroCores = true
 		}
 	case "recorder", "recorder2":
 		// an ordinary custom process reading every out-port nobody consumes (recorder2: TWO of them on
